@@ -450,7 +450,8 @@ class Sim:
 
 def history(rnd, ct, cap, length):
     hi = HI[ct]
-    alpha = rnd.choice([[97, 98], [97, 98, hi, 0], [1, hi, hi - 1], [97, 98, 99, 100, 101]])
+    alpha = rnd.choice([[97, 98], [97, 98, hi, 0], [1, hi, hi - 1], [97, 98, 99, 100, 101]] +
+                       ([[0xFF, 0x100, 0x1FE, 0x201]] if ct in ("c16", "c32", "wchar") else [[0x7F, 0x80, 0xFF]]))
     sim = Sim(cap)
     lines = ["new cap=%d ct=%s" % (cap, ct)]
 
@@ -721,6 +722,20 @@ def generate(tier, seed):
     g = Gen()
     for cap in (3, 16):
         exhaustive(g, cap, thorough)
+    # multi-byte character types: code units whose order by value differs from the order of their low bytes (a byte-wise
+    # memcmp on a little-endian target gets these wrong) and, for wchar_t (signed here), values of both signs
+    for ct, cap, units in (("c16", 7, [0x00FF, 0x0100, 0x01FE, 0x0201, 0xFF00]), ("c32", 7, [0x00FF, 0x0100, 0xFFFF, 0x10000, 0x01000000]),
+                           ("wchar", 7, [0x00FF, 0x0100, 0x10000, 0x7FFFFF00, 0x01000000]),
+                           ("c8", 7, [0x7F, 0x80, 0xFF, 1]), ("char", 7, [0x7F, 0x80, 0xFF, 1])):
+        xs = [list(t) for n in (1, 2) for t in itertools.product(units, repeat=n)]
+        for x in xs:
+            q = []
+            for y in xs:
+                if len(y) == len(x) or (len(y) == 1 and x[0] == y[0]):
+                    lit = "s=%s" % L(y)
+                    q += ["compare obj=0 ov=view " + lit, "compare obj=0 ov=cstr " + lit, "compare obj=0 ov=view3 %s pos=0 count=npos" % lit,
+                          "rel obj=0 ov=strcstr " + lit]
+            g.add(["new cap=%d ct=%s" % (cap, ct), "assign obj=0 ov=ptrn s=%s n=%d" % (L(x), len(x))] + q, "unitorder/%s" % ct)
     per = 400 if thorough else 40
     for ct, cap in INSTANCES:
         for _ in range(per):
